@@ -84,6 +84,10 @@ func c20Conn(t *Tape, sc *Scenario, idx int, pat int) (ConnScript, ConnBackendPl
 	cs := ConnScript{DialAt: Dur(t.Intn(8)) * 500 * time.Microsecond, Lat: drawLat(t), Steps: steps, AcceptErrs: t.Pick(5, 1, 1, 1)}
 	if t.Chance(1, 8) {
 		cs.SrvFaults.FailWriteAt = 1 + t.Intn(8)
+	} else if t.Chance(1, 6) {
+		// the peer stops reading: Close and Shutdown meet a handler parked inside a reply write
+		cs.SrvFaults.BlockWriteAt = 1 + t.Intn(8)
+		cs.SrvFaults.BlockFor = []Dur{0, 3 * time.Millisecond, 30 * time.Second}[t.Intn(3)]
 	}
 	cs.defaults()
 	cs.AwaitTO = 2 * time.Second
